@@ -274,9 +274,12 @@ pub fn gen_scenario(rng: &mut Rng, focus: Focus, http_share: (u64, u64), allow_b
         _ => rng.urange(1000, 50_000),
     };
     let out_kind = match focus {
-        Focus::Seeds => {
-            if rng.chance(1, 6) { OutKind::Force } else { OutKind::New }
-        }
+        Focus::Seeds => match rng.below(12) {
+            0 | 1 => OutKind::Force,
+            // seeds combined with an in-place update of an existing output
+            2 | 3 | 4 => OutKind::InPlace,
+            _ => OutKind::New,
+        },
         Focus::InPlace => {
             if allow_blockdev && rng.chance(1, 4) { OutKind::BlockDev } else { OutKind::InPlace }
         }
